@@ -50,6 +50,8 @@ fn collapse<I>(ds: &DSetOrEmpty, remove: I, connector: usize)
             if remove.is_empty() {
                 None
             } else if remove.len() == ds.size() {
+                #[cfg(rust_dsymbols_verif)]
+                crate::verif_hooks::probe("simplify::collapse::empty");
                 Some(DSetOrEmpty::Empty)
             } else {
                 let mut src2img = vec![0; ds.size() + 1];
@@ -112,6 +114,8 @@ fn grow(ds: &PartialDSet, m: usize) -> PartialDSet {
 
 
 fn cut_face(ds: &PartialDSet, d1: usize, d2: usize) -> PartialDSet {
+    #[cfg(rust_dsymbols_verif)]
+    crate::verif_hooks::probe("simplify::cut_face");
     let n = ds.size();
     let mut ds = grow(ds, 8);
     let old = vec![
@@ -149,6 +153,8 @@ fn cut_face(ds: &PartialDSet, d1: usize, d2: usize) -> PartialDSet {
 
 
 fn cut_tile(ds: &PartialDSet, cut_chambers: &Vec<usize>) -> PartialDSet {
+    #[cfg(rust_dsymbols_verif)]
+    crate::verif_hooks::probe("simplify::cut_tile");
     let n = ds.size();
     let m = cut_chambers.len();
     assert!(m % 2 == 0);
@@ -194,6 +200,8 @@ fn cut_tile(ds: &PartialDSet, cut_chambers: &Vec<usize>) -> PartialDSet {
 
 
 fn squeeze_tile_3d(ds: &PartialDSet, d: usize, e: usize) -> PartialDSet {
+    #[cfg(rust_dsymbols_verif)]
+    crate::verif_hooks::probe("simplify::squeeze_tile_3d");
     let f = ds.op(0, e).unwrap();
     let g = ds.op(0, d).unwrap();
     let f2 = ds.op(2, f).unwrap();
@@ -269,6 +277,8 @@ fn fix_local_1_vertex(input: &DSetOrEmpty) -> Option<DSetOrEmpty> {
                         &ds, [(d, e1), (e, d1), (f, g1), (g, f1)], 1
                     ).unwrap();
 
+                    #[cfg(rust_dsymbols_verif)]
+                    crate::verif_hooks::probe("simplify::move::fix_local_1_vertex");
                     let orb = tmp.orbit([0, 1, 3], c);
                     return collapse(&DSetOrEmpty::DSet(tmp), orb, 3);
                 }
@@ -295,6 +305,8 @@ fn fix_local_2_vertex(input: &DSetOrEmpty) -> Option<DSetOrEmpty> {
                         continue;
                     }
 
+                    #[cfg(rust_dsymbols_verif)]
+                    crate::verif_hooks::probe("simplify::move::fix_local_2_vertex");
                     let mut ds = as_dset(ds);
                     let e = ds.op(2, ds.op(1, d).unwrap()).unwrap();
 
@@ -355,6 +367,8 @@ fn fix_non_disk_face(input: &DSetOrEmpty) -> Option<DSetOrEmpty> {
                         let f1 = ds.op(1, f).unwrap();
                         let g1 = ds.op(1, g).unwrap();
 
+                        #[cfg(rust_dsymbols_verif)]
+                        crate::verif_hooks::probe("simplify::move::fix_non_disk_face");
                         return Some(DSetOrEmpty::DSet(
                             reglue(
                                 &ds, [(d, e1), (e, d1), (f, g1), (g, f1)], 1
@@ -413,6 +427,12 @@ fn split_and_glue(input: &DSetOrEmpty) -> Option<DSetOrEmpty> {
                         DSetOrEmpty::Empty => {},
                         DSetOrEmpty::DSet(ds_out) => {
                             if ds_out.size() < ds_in.size() {
+                                #[cfg(rust_dsymbols_verif)]
+                                crate::verif_hooks::probe(if key.0 == 0 {
+                                    "simplify::move::split_and_glue::edge_mode"
+                                } else {
+                                    "simplify::move::split_and_glue::face_mode"
+                                });
                                 return Some(DSetOrEmpty::DSet(ds_out));
                             }
                         }
@@ -482,6 +502,21 @@ fn cut_pairs_in_order(
 )
     -> Vec<(usize, usize)>
 {
+    // Choice point (verification builds only): `start` arrives as computed
+    // by the unmodified caller - the first eligible element in hash order.
+    // `eligible` repeats the caller's predicate; the hook may substitute
+    // another eligible element. No hash container is created here.
+    #[cfg(rust_dsymbols_verif)]
+    let start = {
+        let mut eligible: Vec<usize> = marked.iter().cloned()
+            .filter(|&e| !marked.contains(&ds.op(0, e).unwrap()))
+            .collect();
+        eligible.sort();
+        crate::verif_hooks::choose(
+            "simplify::network_cut::start", &eligible, Some(start)
+        ).unwrap_or(start)
+    };
+
     let mut result = vec![];
     let mut d = start;
 
@@ -623,6 +658,20 @@ pub fn simplify<T: DSet>(ds: &T) -> Option<PartialDSym> {
 
     let mut ds = DSetOrEmpty::DSet(as_dset(ds));
     ds = merge_all(&ds).or(Some(ds)).unwrap();
+    #[cfg(rust_dsymbols_verif)]
+    if crate::verif_hooks::recording_states() {
+        if let DSetOrEmpty::DSet(ref d) = ds {
+            let mut ops = Vec::with_capacity((d.dim() + 1) * d.size());
+            for i in 0..=d.dim() {
+                for c in 1..=d.size() {
+                    ops.push(d.op(i, c).unwrap_or(0));
+                }
+            }
+            crate::verif_hooks::record_state("simplify::initial_merge", d.size(), d.dim(), ops);
+        } else {
+            crate::verif_hooks::record_state("simplify::initial_merge", 0, 3, vec![]);
+        }
+    }
 
     loop {
         let mut changed = false;
@@ -634,6 +683,20 @@ pub fn simplify<T: DSet>(ds: &T) -> Option<PartialDSym> {
         ] {
             if let Some(out) = op(&ds) {
                 ds = merge_all(&out).or(Some(out)).unwrap();
+                #[cfg(rust_dsymbols_verif)]
+                if crate::verif_hooks::recording_states() {
+                    if let DSetOrEmpty::DSet(ref d) = ds {
+                        let mut ops = Vec::with_capacity((d.dim() + 1) * d.size());
+                        for i in 0..=d.dim() {
+                            for c in 1..=d.size() {
+                                ops.push(d.op(i, c).unwrap_or(0));
+                            }
+                        }
+                        crate::verif_hooks::record_state("simplify::after_move", d.size(), d.dim(), ops);
+                    } else {
+                        crate::verif_hooks::record_state("simplify::after_move", 0, 3, vec![]);
+                    }
+                }
                 changed = true;
                 break;
             }
